@@ -93,7 +93,7 @@ func runC08(w *World, r *Report, tier string) {
 				bad = "a loop or panic on the send path"
 				return
 			}
-			res := ret.Results[len(ret.Results)-1]
+			res := rres(path, ret)[len(ret.Results)-1]
 			if c, ok := res.(*ssa.Const); !ok || c.Value != nil {
 				// possibly nil unless asserted non-nil or constructed
 				if _, isCallRes := res.(*ssa.Call); isCallRes && !w.isResultOf(res, 0, sendWriteKeys...) {
@@ -147,7 +147,7 @@ func runC08(w *World, r *Report, tier string) {
 			if !isRet {
 				return
 			}
-			if !isNilConst(rvI(ret.Results[len(ret.Results)-1], len(path)-1)) {
+			if !isNilConst(rvI(rres(path, ret)[len(ret.Results)-1], len(path)-1)) {
 				return
 			}
 			nOK++
@@ -185,7 +185,7 @@ func runC08(w *World, r *Report, tier string) {
 				return
 			}
 			n := countOn(path, notLog)
-			res := ret.Results[len(ret.Results)-1]
+			res := rres(path, ret)[len(ret.Results)-1]
 			if n == 0 {
 				if isNilConst(res) {
 					bad = "Write can report success without writing"
@@ -290,7 +290,7 @@ func errorDropped(w *World, fn *ssa.Function, c *ssa.Call) string {
 		if !ok {
 			return
 		}
-		res := ret.Results[len(ret.Results)-1]
+		res := rres(path, ret)[len(ret.Results)-1]
 		testedNonNil, testedNil := false, false
 		pathEdges(path, func(b *ssa.BasicBlock, succ int) {
 			if cv, truth, ok := edgeAssertion(b, succ); ok {
@@ -332,7 +332,7 @@ func c08StreamLogger(w *World, r *Report) {
 				bad = "loop of unknown shape"
 				return
 			}
-			res := valueOnPath(rvI(ret.Results[1], len(path)-1), path)
+			res := valueOnPath(rvI(rres(path, ret)[1], len(path)-1), path)
 			if !isNilConst(res) {
 				// an error that this path has found non-nil, or a constructed one: not a success path
 				if _, isC := res.(*ssa.Const); isC {
@@ -451,7 +451,7 @@ func c08StreamLogger(w *World, r *Report) {
 			return
 		}
 		// failure exit: must return a non-nil error
-		res := ret.Results[1]
+		res := rres(path, ret)[1]
 		if isNilConst(res) {
 			bad = "a failed or short write is reported as success"
 		} else if res != eV {
@@ -464,8 +464,8 @@ func c08StreamLogger(w *World, r *Report) {
 	// after the loop: returns len(p), nil
 	okDone := false
 	walkPaths(Loc{lp.done, 0}, nil, nil, 100, func(path []ssa.Instruction, end pathEnd) {
-		if ret, ok := path[len(path)-1].(*ssa.Return); ok && isNilConst(ret.Results[1]) {
-			if lc, ok := ret.Results[0].(*ssa.Call); ok && w.callKey(lc) == "builtin.len" && isParamOf(lc.Call.Args[0], fn) {
+		if ret, ok := path[len(path)-1].(*ssa.Return); ok && isNilConst(rres(path, ret)[1]) {
+			if lc, ok := rres(path, ret)[0].(*ssa.Call); ok && w.callKey(lc) == "builtin.len" && isParamOf(lc.Call.Args[0], fn) {
 				okDone = true
 			}
 		}
